@@ -43,7 +43,10 @@ RULE_ADDED = (
               ' '
               'Round 14: the previous transaction asked again with one small field or one scrip'
               't changed (near copies); 8% of the Ledger cases preceded by a uiHeartbeat, faile'
-              'd or not, that leaves the device in the signer. ')
+              'd or not, that leaves the device in the signer. '
+              ' '
+              'Round 15: merkle proofs with a node repeated (12%); the 16 MiB transaction of a '
+              'quick run always takes place. ')
 RULE = RULE + " " + RULE_ADDED.strip()
 ASSUMPTIONS = [
     "device model and fake HID transport are trusted (pv/simdev); they follow the framing only",
